@@ -285,6 +285,9 @@ func (e *edge) split(bt *Tree, splitOn int, fullKey []byte, key []byte, vals []e
 	if splitOn != len(key) {
 		newLeaf = &node{key: fullKey}
 		newNode.edges = append(newNode.edges, &edge{key[splitOn:], newLeaf})
+	} else {
+		// the key ends at the split point, so the new inner node is the key's node
+		newNode.key = fullKey
 	}
 	e.label = e.label[:splitOn]
 	e.target = newNode
